@@ -22,6 +22,7 @@ PoolAll == {
   U("text", "image", PixPos, <<>>, NoAng, "absent", [text |-> "2\" beam"]),
   U("circle", "fk5", SkyPos, <<V("mas", 1800000)>>, NoAng, "absent", [text |-> "FOV 5'", tag |-> "t1"]),
   U("point", "galactic", SkyPos, <<>>, NoAng, "0", [text |-> "\"quoted\""]),
+  U("circle", "icrs", SkyPos, <<V("mas", 900000)>>, NoAng, "absent", [text |-> ";lead; tail;"]),
   U("line", "image", PixPos \o <<V("mpix", 0), V("mpix", 7000)>>, <<>>, NoAng, "F", [color |-> "red"]),
   U("compound", "image", <<>>, <<>>, NoAng, "absent", NoProps),
   U("circle", "unnamed", SkyPos, <<V("mas", 3600000)>>, NoAng, "absent", NoProps) }
